@@ -79,4 +79,16 @@ def packSent (pcode : Int) (license : Bytes) (ty : Nat) (body : Bytes) : Sent :=
 example : (packSent 5 [] typeZip (encZip ⟨⟨5, 1, 0, 0, 1000⟩, 1, 2, [1, 2]⟩)).wf := by
   refine ⟨by decide, by decide⟩
 
+/-! non-vacuity: a concrete history on the model — a send that succeeds, a send whose write fails after 5 bytes,
+    a send after the reconnect — runs, with 22-byte reference frames -/
+def cfgAllLocked : Cfg := ⟨false, true, true, true, true, true, true⟩
+def tinySent : Nat → Sent := fun sid => ⟨(sid % 1000 : Nat), [], []⟩
+
+example : (runHist cfgAllLocked (framesOf tinySent) [.ok 1, .writeFault 1 5, .ok 1] Tcp.init).isSome = true := by
+  decide +kernel
+
+example : ∀ sid, (tinySent sid).wf := fun sid => ⟨by
+  show inRange 8 ((sid % 1000 : Nat) : Int)
+  rw [inRange_8]; omega, by show ([] : Bytes).length < 2147483648; decide⟩
+
 end C05
